@@ -169,9 +169,11 @@ impl Relation for ZkirRelation {
     }
 
     fn read_relation<R: io::Read>(reader: &mut R) -> io::Result<Self> {
-        let program = bincode::decode_from_std_read(reader, bincode::config::standard())
-            .map(|(program, _bytes_read): (Program, usize)| program)
-            .map_err(io::Error::other)?;
+        // `decode_from_std_read` returns the decoded value alone (not paired with a
+        // byte count): decode exactly what `write_relation` wrote and nothing more.
+        let program: Program =
+            bincode::decode_from_std_read(reader, bincode::config::standard())
+                .map_err(io::Error::other)?;
 
         Self::from_instructions(&program.instructions)
             .map_err(|e| io::Error::other(format!("{e:?}")))
